@@ -42,8 +42,19 @@ fn word_matches(r: usize) {
         acc += ROW[(j + 12 - r) % 12] * (s[j].inner() as u128);
         j += 1;
     }
-    vcheck!("C16.rp64.mds.word_equals_matrix_row_product", (t[r].inner() as u128) % P == acc % P);
-    vcheck!("C16.rp64.mds.word_canonical", (t[r].inner() as u128) < P);
+    // reference reduction of the (< 2^73) integer product without division: 2^64 = 2^32 - 1 (mod p)
+    let lo = acc & 0xffff_ffff_ffff_ffff;
+    let hi = acc >> 64;
+    let mut w = lo + hi * 0xffff_ffff; // < 2^64 + 2^41
+    if w >= P {
+        w -= P;
+    }
+    if w >= P {
+        w -= P;
+    }
+    let got = t[r].inner() as u128;
+    vcheck!("C16.rp64.mds.word_equals_matrix_row_product", got == w || got == w + P);
+    vcheck!("C16.rp64.mds.word_canonical", got < P);
 }
 
 //# harness: fn=mds_multiply, mds_multiply_freq, block1, block2, block3 (output word 0); label=complete (every state of 12 canonical words); tier=quick; uses=word_matches,any_state; timeout=1500
